@@ -1631,6 +1631,10 @@ def oracle_ledger(case):
         lab = _SUB[kind](sub)                            # judged by the clause the sub-case belongs to
         rec = []
         for what, ins, got in _raw_calls(am, miller, kind, sub, keep):
+            for a in ins:
+                # class B: the result must be the caller's to keep - an array that IS (or views) the argument moves when the caller re-uses that
+                require(not (isinstance(a, np.ndarray) and isinstance(got, np.ndarray) and np.shares_memory(a, got)),
+                        lambda: '%s returned an array that shares memory with its argument (the caller overwriting one changes the other)' % what)
             rec.append((what, [led.add(what, a, 'in') for a in ins], led.add(what, got, 'out'), _bits(got)))
         trail.append('%s%s' % (_opname(kind, sub), tag))
         led.check(trail[-1])
@@ -1843,7 +1847,7 @@ def oracle_near(case):
         # plane normals and vectors in that cell; 4-index input is accepted exactly when the cell is hexagonal (default tolerances)
         hexa = _model_preds(_params_of(V))['hexagonal']
         cond = float(np.linalg.cond(V))
-        four = case['base'].startswith('hex') and case['sel'] % 2 == 0
+        four = case['base'].startswith('hex') and case['sel'] % 4 != 3
         sub = set()
         if case['sel'] < 5:
             _do_normal(miller, box, V, cond, hexa, case['idx'], case['uvw'], 'box', four, 'int', sub, vpert)
@@ -2210,7 +2214,7 @@ CLAUSES = [
                       'form_fortran': 0.03, 'form_ro': 0.03, 'form_npscalars': 0.03,
                       'narrow': 0.15, 'dt_overflow': 0.035, 'form_i8': 0.024, 'form_u8': 0.024, 'form_i16': 0.02, 'form_u16': 0.008,
                       'form_u32': 0.008, 'form_u64': 0.008, 'form_i32w': 0.012, 'form_i64w': 0.01, 'form_be16': 0.009, 'form_be32': 0.011,
-                      'form_be64': 0.01, 'form_bool': 0.008, 'fnarrow': 0.012},
+                      'form_be64': 0.01, 'form_bool': 0.008, 'fnarrow': 0.01},
            max_share={'refusal_nonhex': 0.25},
            desc='one operation per case (normal+zone law, vector, 3<->4, centring, reduce) on index arrays of leading shape (), (N,), (M,N), '
                 'indices up to 12, list/int/float input, random cells, 4-index input accepted exactly in hexagonal cells; 30 % of the blocks are '
@@ -2224,7 +2228,7 @@ CLAUSES = [
                       'result_overwritten': 0.33, 'q_read': 0.14, 'q_family': 0.12, 'rotated': 0.2,
                       'narrow': 0.35, 'dt_overflow': 0.11, 'form_i8': 0.17, 'form_u8': 0.055, 'form_i16': 0.03, 'form_u16': 0.03,
                       'form_u32': 0.03, 'form_u64': 0.025, 'form_be16': 0.022, 'form_be32': 0.02, 'form_be64': 0.025, 'form_i64w': 0.03,
-                      'ledger': 0.38, 'vform_f32': 0.08, 'fnarrow': 0.045},
+                      'ledger': 0.38, 'vform_f32': 0.08, 'fnarrow': 0.035},
            desc='HISTORY on one Box object (half of them held by a System): built through any constructor route, queried (normals + zone law, '
                 'vectors, family, derived attributes in varying order; 3- and 4-index, every input form), changed IN PLACE through every public route '
                 '(box.vects = ..., set(vects|avect..|a..|lx..|xlo..), model(), System.box_set with and without scale, set()), origin-only changes, '
@@ -2233,14 +2237,14 @@ CLAUSES = [
     Clause('call_history', oracle_call_history, g16.call_history_cases, quick=1400, thorough=40000,
            min_share={'nt': 0.38, 'related': 0.3, 'mixed': 0.13, 'several_kinds': 0.25, 'settings_mixed': 0.1, 't1_and_t2': 0.025,
                       'cells_mixed': 0.12, 'op_centering': 0.19, 'op_normal': 0.17, 'op_strings': 0.04, 'op_family': 0.035,
-                      'narrow': 0.14, 'dt_overflow': 0.03, 'fnarrow': 0.02},
+                      'narrow': 0.14, 'dt_overflow': 0.03, 'fnarrow': 0.008},
            desc='HISTORY of module-level calls in one process: 2-5 complete cases of the clauses random / strings / family (half of the sequences: '
                 'one index block through the same operation with another centring setting / the same lattice in another orientation / another '
                 'lattice in the same orientation / the identical call), each judged by its own oracle, then all repeated in another order'),
     Clause('ledger', oracle_ledger, g16.ledger_cases, quick=700, thorough=25000,
            min_share={'nt': 0.33, 'spoil_in': 0.3, 'spoil_out': 0.2, 'recall': 0.18, 'recall_same_box': 0.04, 'several_kinds': 0.38, 'op_normal': 0.28,
                       'op_vector': 0.18, 'op_centering': 0.18, 'op_conv34': 0.12, 'op_reduce': 0.1, 'op_strings': 0.09, 'cell_sym': 0.18, 'narrow': 0.2,
-                      'fnarrow': 0.04},
+                      'fnarrow': 0.03},
            desc='RESULT LEDGER + CALLER-SIDE MUTATION: 2-4 complete cases of the clauses random / strings in one process (plane normals, vectors, 3<->4, '
                 'centring, reduce, fromstring; several Box objects, shared and different cells), each judged by its own oracle; every array handed in or out '
                 'is kept with a private copy and compared bit for bit after every later call; then the caller overwrites in place the arrays it handed in / '
@@ -2253,19 +2257,19 @@ CLAUSES = [
                 'the cell optionally read from a Box data model written under those units; documented atol passed as 1e-8 angstrom'),
     Clause('near', oracle_near, g16.near_cases, quick=2000, thorough=60000,
            min_share={'nt': 0.45, 'kind_family': 0.18, 'kind_tilt': 0.16, 'kind_almost_int': 0.07, 'kind_guard': 0.06, 'coincident': 0.1, 'distinct': 0.06,
-                      'opts': 0.07, 'in_cleanup_window': 0.08, 'refused': 0.1, 'accepted': 0.035, 'four_accepted': 0.028, 'four_refused': 0.01,
-                      'name_cubic': 0.028, 'name_tetragonal': 0.028, 'name_hexagonal': 0.045, 'name_None': 0.025},
+                      'opts': 0.07, 'in_cleanup_window': 0.08, 'refused': 0.1, 'accepted': 0.035, 'four_accepted': 0.015, 'four_refused': 0.005,
+                      'name_cubic': 0.025, 'name_tetragonal': 0.025, 'name_hexagonal': 0.03, 'name_None': 0.02},
            desc='NEAR-THRESHOLD: family parameters 1e-12 ... 1e-3 (relative) off a higher-symmetry family, default and explicit rtol / atol, judged by my own '
                 'reading of the documented definitions outside a factor-3 band around each tolerance (4-index acceptance included); cells with tilts of '
                 '1e-12 ... 1e-3 of the cell; plane indices almost whole numbers (documented refusal or the rounded plane); quadruples with h+k+i almost 0'),
     Clause('decades', oracle_decades, g16.decades_cases, quick=1200, thorough=40000,
-           min_share={'nt': 0.45, 'op_vector': 0.11, 'op_normal': 0.15, 'op_centering': 0.06, 'op_conv34': 0.08, 'op_reduce': 0.08, 'four': 0.09,
+           min_share={'nt': 0.45, 'op_vector': 0.11, 'op_normal': 0.15, 'op_centering': 0.06, 'op_conv34': 0.08, 'op_reduce': 0.08, 'four': 0.06,
                       'span>=16': 0.2, 'cell_sym': 0.14, 'shape_MN': 0.15},
            desc='MANY DECADES IN ONE CALL: index rows spanning up to 24 orders of magnitude (planes 4-5, reduce 15) in one array: every row judged relative '
                 'to its own magnitude and against the call with that row alone'),
     Clause('structured', oracle_structured, g16.structured_cases, quick=900, thorough=30000,
            min_share={'nt': 0.4, 'rows_relabelled': 0.16, 'axes_only': 0.33, 'lower_triangular': 0.13, 'negative_diagonal': 0.06, 'upper_triangular': 0.025,
-                      'diagonal': 0.014, 'fractional': 0.26, 'hexagonal_now': 0.08, 'vform_f32': 0.06, 'vform_list': 0.09},
+                      'diagonal': 0.014, 'fractional': 0.26, 'hexagonal_now': 0.05, 'vform_f32': 0.06, 'vform_list': 0.09},
            desc='EXACTLY STRUCTURED CELLS: exact signed permutations of the lattice vectors and of the Cartesian axes of a family cell (upper / lower '
                 'triangular, negative diagonal, zeros in unusual places; list / int / float32 / Fortran vectors): normals + zone law, the mirrored and the '
                 'cyclically relabelled case, vectors with exact halves, family identification'),
